@@ -939,7 +939,7 @@ def exhaustive_process():
                     out.append(" ".join(ch + [":runnerx %s 1 1 %s" % (" ".join(cmdline(e=1)), q), ":test " + t]))
                     out.append(" ".join(ch + [":runner 1 1 " + q, ":test " + t, ":runnerx %s 1 1 %s" % (" ".join(cmdline(e=1)), t)]))
         # -f (crash on fail, with a crash method that returns) left behind, failing tests later; -p (forked tests) with every outcome
-        f = fmt_xtest(QUIETS[2])
+        f = fmt_xtest([[], [(":set", "2", "7"), (":fail",), (":wr", "4", "9"), (":set", "5", "1")], [(":wr", "3", "1"), (":failc",), (":wr", "6", "2")]])   # statements behind the failure
         out.append(" ".join(ch + [":runnerx %s 1 1 %s" % (" ".join(cmdline(f=1)), f), ":runnerx %s 1 2 %s %s" % (" ".join(cmdline(e=1)), f, fmt_xtest(QUIETS[1]))]))
         out.append(" ".join(ch + [":crashonfail 1", ":runnerx %s 1 1 %s" % (" ".join(cmdline()), f), ":crashonfail 0", ":runnerx %s 1 1 %s" % (" ".join(cmdline()), f)]))
         if not any(c.startswith(":act") for c in ch):
